@@ -40,3 +40,11 @@ Theorem C03_no_head_of_line_blocking : forall (A : Type) cmax W K, 0 < K ->
   m_wire m <> [] -> exists m', mstep cmax K m MDeliver = Some m'.
 Proof. exact multi_head_always_deliverable. Qed.
 Print Assumptions C03_no_head_of_line_blocking.
+
+(* ---- one RPC end to end (Rpc.v): no interleaving of its sends, half-close, cancellation, refusal,
+   completion and late frames makes either receive loop end the tunnel ---- *)
+From GT Require Import Rpc RpcProofs RpcSystem.
+Theorem C03_rpc_never_ends_the_tunnel : forall strict ls s, rrun strict r_init ls = Some s ->
+  k_err (r_k s) = false /\ v_err (r_v s) = false.
+Proof. exact rpc_tunnel_survives. Qed.
+Print Assumptions C03_rpc_never_ends_the_tunnel.
